@@ -124,10 +124,47 @@ def write_file(r, fmt, path, sc=None, pps=None, decimals=None):
             for la, types, left in saved:
                 la.lanelet_type = types
                 la.left_vertices = left
+        elif r.get("reuse") == "full":
+            # the complete file (scenario and planning problems) is written twice by the same writer
+            w.write_to_file(path + ".side", OverwriteExistingFile.ALWAYS)
         elif r.get("reuse"):
             w.write_scenario_to_file(path + ".side", OverwriteExistingFile.ALWAYS)
         w.write_to_file(path, OverwriteExistingFile.ALWAYS)
     return sc, pps
+
+
+def _edit_loaded(sc, pps):
+    from commonroad.geometry.shape import Circle, Polygon, Rectangle, ShapeGroup
+
+    def edit(sh):
+        if isinstance(sh, Rectangle):
+            sh.length = float(sh.length) * 2.0 + 1.0
+            sh.center = np.asarray(sh.center, dtype=float) + 3.0
+        elif isinstance(sh, Circle):
+            sh.radius = float(sh.radius) * 2.0 + 1.0
+        elif isinstance(sh, Polygon):
+            sh.vertices = np.asarray(sh.vertices, dtype=float) + 3.0
+        elif isinstance(sh, ShapeGroup):
+            for m in sh.shapes:
+                edit(m)
+    for o in sc.obstacles:
+        if hasattr(o, "obstacle_shape"):
+            edit(o.obstacle_shape)
+        p = getattr(o, "prediction", None)
+        for oc in getattr(p, "_occupancy_set", None) or []:
+            edit(oc.shape)
+        if p is not None and hasattr(p, "shape") and p.shape is not None:
+            edit(p.shape)
+    for la in sc.lanelet_network.lanelets:
+        la.lanelet_type = set()
+    for pp in pps.planning_problem_dict.values():
+        for st_ in pp.goal.state_list:
+            if hasattr(st_, "position"):
+                edit(st_.position)
+        lan = pp.goal.lanelets_of_goal_position
+        if lan:
+            for k in list(lan):
+                lan[k] = list(lan[k]) + [424242]
 
 
 def la_domain(r):
@@ -160,6 +197,11 @@ def roundtrip(r, fmt):
             data = f.read()
         ff = FileFormat.XML if fmt == "xml" else FileFormat.PROTOBUF
         # "read_la": the file is opened with lanelet assignment; everything the file states must read back the same
+        if r.get("read_twice"):
+            # the file is read, the loaded objects are edited in place (they belong to the caller), and the file is
+            # read again: the second reading is what the file says
+            first_sc, first_pps = CommonRoadFileReader(path, file_format=ff).open()
+            _edit_loaded(first_sc, first_pps)
         sc2, pps2 = CommonRoadFileReader(path, file_format=ff).open(lanelet_assignment=bool(r.get("read_la")) and la_domain(r))
         if r.get("network_only"):
             # the reader's second entry point: only the lanelet network of the file
